@@ -1,5 +1,5 @@
 """Registry of the claimed properties: Lean module, correspondence parts, trusted base."""
-from .domains import upcast, bus, store, state, names, resume, conc
+from .domains import upcast, bus, store, state, names, resume, conc, durable
 
 COMMON_ASSUME = [
     "the hand-written Lean model equals the Go code only on the inputs the correspondence ran (differential testing, reported under coverage)",
@@ -110,4 +110,14 @@ PROPS.update({
         known_finding_checks=[resume.known_c12],
         level_text="Proof: in fault-free well-formed histories what a subscription has been given is always a prefix of the persisted events of its type in log order, each once, and everything once it is live; under ANY plan (crash after any store operation and/or failure of any single store operation) the persisted events of its type are, in order, a subsequence of what a live subscription was given (nothing lost, nothing reordered); the saved offset never moves backwards when no id is subscribed while it is already live, and never exceeds the log; different ids are independent. Known finding proved as witness theorems: events published during SubscribeWithReplay are lost (publish_during_replay_lost), and with a duplicate live id the saved offset can move backwards (saved_offset_monotone_counterexample).",
         level_note="Trusted: Lean kernel + 3 standard axioms; correspondence harness (counting store wrapper injects the failure / death); C10 for the stores. The 'schedules' part of the quantifier (a publish interleaved at any point of a running SubscribeWithReplay from another goroutine) is covered only in its re-entrant form (the handler publishes during the replay) – partial. KNOWN FINDINGS reported on every run."),
+})
+
+PROPS.update({
+    "C14": dict(module="Ebu.Props.C14", ready=True,
+        parts=[dict(name="kill14", domain="durable", domain_module="durable", gen=durable.gen, n_quick=25, n_thorough=900, chunk=4, jobs=8)],
+        rule="a child process appends (and saves the offset every 0/1/2/5 appends) on a SQLite file, printing an acknowledgement after every returned call; the parent SIGKILLs it after 1..40 acknowledgements plus 0..3000 microseconds, reopens, and hands what it finds to the model's judgement (recoveredOk: acknowledged events in order, gap-free positions, at most the in-flight one extra; acknowledged saved offset not lost); histories chain kills, clean appends+close and double reopens; non-trivial = at least one kill",
+        trusted_base=["ASSUMED, sampled by the kill harness, not proved: a single SQL statement is atomic, a committed statement survives SIGKILL (WAL mode, synchronous=NORMAL), AUTOINCREMENT never reuses a rowid", "power loss / fsync behaviour is outside both model and harness"],
+        assumptions=COMMON_ASSUME,
+        level_text="Proof over every sequence of appends, offset saves, kills (between or during an operation, the in-flight statement committed or not), clean closes and reopenings: positions are gap-free 1..n in order; every acknowledged event is in the log with its acknowledged offset, in acknowledgement order; an acknowledged saved offset is what LoadOffset returns until a later save of that id; new appends get larger offsets than everything before; opening an existing database is idempotent and never touches the rows. The assumptions about SQLite itself are sampled by real SIGKILLs and judged with the model's own predicate.",
+        level_note="PARTIAL: durability across process death is an assumption about database/sql + modernc SQLite that the theorems rest on and the kill harness samples (25 kill histories quick, 900 thorough); it is not proved. Trusted: Lean kernel + 3 standard axioms; the harness."),
 })
